@@ -161,8 +161,8 @@ template<>
 FASTOR_INLINE
 void _dyadic<float,3,3>(const float * FASTOR_RESTRICT a, const float * FASTOR_RESTRICT b, float * FASTOR_RESTRICT out) {
     // 18 OPS
-    __m128 vec_a = _mm_loadu_ps(a);
-    __m128 vec_b = _mm_loadu_ps(b);
+    __m128 vec_a = _mm_loadul3_ps(a);
+    __m128 vec_b = _mm_loadul3_ps(b);
 
     __m128 a0 = _mm_shuffle_ps(vec_a,vec_a,_MM_SHUFFLE(0,0,0,0));
     __m128 a1 = _mm_shuffle_ps(vec_a,vec_a,_MM_SHUFFLE(1,1,1,1));
@@ -170,7 +170,7 @@ void _dyadic<float,3,3>(const float * FASTOR_RESTRICT a, const float * FASTOR_RE
 
     _mm_storeu_ps(out,_mm_mul_ps(a0,vec_b));
     _mm_storeu_ps(out+3,_mm_mul_ps(a1,vec_b));
-    _mm_storeu_ps(out+6,_mm_mul_ps(a2,vec_b));
+    _mm_storeul3_ps(out+6,_mm_mul_ps(a2,vec_b));
 }
 
 
